@@ -988,6 +988,9 @@ func (x *Exec) loopInvariants(fr *Frame, ord int) []*Clause {
 
 func (x *Exec) enterLoop(fr *Frame, li *loopInfo, entry *State) *State {
 	ord, node := x.loopOrdinalOf(fr, li)
+	if ord < 0 {
+		x.unsup("the loop structure of %s changed: loop %q has no counterpart in the recorded loop map (contract unbound)", fr.key, x.env.loopHeader(node))
+	}
 	invs := x.loopInvariants(fr, ord)
 	pos := token.NoPos
 	if node != nil {
